@@ -182,7 +182,6 @@ class PropertyValue(cssutils.util._NewBase):
                 ok = False
                 break
 
-        self.wellformed = ok
         if ok:
             self._setSeq(seq)
         else:
@@ -190,6 +189,8 @@ class PropertyValue(cssutils.util._NewBase):
                 'PropertyValue: Unknown syntax or no value: %s'
                 % self._valuestr(cssText)
             )
+        # set after error() which may raise, self is left unchanged then
+        self.wellformed = ok
 
     cssText = property(
         lambda self: cssutils.ser.do_css_PropertyValue(self),
@@ -394,7 +395,6 @@ class ColorValue(Value):
         prods = Choice(PreDef.hexcolor(stop=True), namedcolor, noalp, witha)
 
         ok, seq, store, unused = ProdParser().parse(cssText, self.type, prods)
-        self.wellformed = ok
         if ok:
             t, v = seq[0].type, seq[0].value
             if 'IDENT' == t:
@@ -447,11 +447,12 @@ class ColorValue(Value):
                     'hsla(': ('NPPN',),
                 }
                 if check not in checks[functiontype]:
-                    self.wellformed = False
+                    # may raise, self is left unchanged then
                     self._log.error(
                         'ColorValue has invalid %s) parameters: '
                         '%s (N=Number, P=Percentage)' % (functiontype, check)
                     )
+                    self.wellformed = False
                     return
 
                 if HSL:
@@ -480,6 +481,8 @@ class ColorValue(Value):
             self._colorType = t
             self._red, self._green, self._blue, self._alpha = tuple(rgba)
             self._setSeq(seq)
+
+        self.wellformed = ok
 
     cssText = property(
         lambda self: cssutils.ser.do_css_ColorValue(self),
@@ -566,7 +569,6 @@ class DimensionValue(Value):
             )
         )
         ok, seq, store, unused = ProdParser().parse(cssText, 'DimensionValue', prods)
-        self.wellformed = ok
         if ok:
             item = seq[0]
 
@@ -575,20 +577,20 @@ class DimensionValue(Value):
                 val = float(sign + v)
                 if val in (float('inf'), float('-inf')):
                     # cannot be kept (and serialized again) as a float
-                    self.wellformed = False
                     self._log.error(
                         'DimensionValue: Number too large: %r' % self._valuestr(cssText)
                     )
+                    self.wellformed = False
                     return
             else:
                 try:
                     val = int(sign + v)
                 except ValueError:
                     # more digits than int() converts (sys.int_info.default_max_str_digits)
-                    self.wellformed = False
                     self._log.error(
                         'DimensionValue: Number too large: %r' % self._valuestr(cssText)
                     )
+                    self.wellformed = False
                     return
 
             dim = None
@@ -601,6 +603,8 @@ class DimensionValue(Value):
             self._type = item.type
 
             self._setSeq(seq)
+
+        self.wellformed = ok
 
     cssText = property(
         lambda self: cssutils.ser.do_css_Value(self),
